@@ -5,7 +5,7 @@ MusicXML reader itself uses for the same notation (directions through partitura.
 explicit, every note carries its symbolic duration - so the expected result of load(save(s)) is s itself."""
 from fractions import Fraction
 
-FEATURES = ["pickup", "chord", "two_voices", "two_staves", "tie_barline", "tie_chain", "tie_cross_voice", "grace", "grace_chain", "grace_run_below", "slur", "slur_chain", "slur_overlap", "slur_barline",
+FEATURES = ["pickup", "chord", "two_voices", "two_staves", "tie_barline", "tie_chain", "tie_cross_voice", "grace", "grace_chain", "grace_run_below", "underfilled_measures", "slur", "slur_chain", "slur_overlap", "slur_barline",
             "tuplet", "dynamics", "wedge", "wedge_overlap", "dashes", "words", "words_quantified", "pedal", "pedal_barline", "tempo", "tempo_mid", "repeat", "ending", "fermata_note", "fermata_barline", "fermata_inner_barline",
             "articulation", "articulation_order", "fingering", "stem", "unpitched", "rests", "key_change", "ts_change", "clef_change", "divisions_change",
             "divisions_change_mid", "dotted", "page", "two_parts", "group", "nested_group", "nested_group_first", "voice_gap", "polyphony", "polyphony_two_voices",
@@ -127,7 +127,8 @@ def build(features, pid="P1", seed=0):
         note("n2", m1 + 2, Fraction(3, 2), "E", 4, stem_direction=("up" if "stem" in f else None))
         note("n2b", m1 + Fraction(7, 2), Fraction(1, 2), "F", 4)
     else:
-        note("n2", m1 + 2, 2, "E", 4, stem_direction=("up" if "stem" in f else None))
+        # (underfilled: nothing sounds in the last beat of the first full measure, and no rest stands there)
+        note("n2", m1 + 2, 1 if "underfilled_measures" in f else 2, "E", 4, stem_direction=("up" if "stem" in f else None))
     if "polyphony" in f or "polyphony_two_voices" in f:
         # a note overlapping the next onset of its own voice: has to move to a free voice on export
         note("px", m1 + 1, 2, "B", 4)
@@ -146,7 +147,7 @@ def build(features, pid="P1", seed=0):
         note("n3", m2, 1, "F", 4)
         note("n5", m2 + 1, 1, "A", 4)
     if m3len == 4:
-        note("n6", m3, 4, "C", 5)
+        note("n6", m3, 2 if "underfilled_measures" in f else 4, "C", 5)  # (underfilled: the last measure is half empty)
     else:
         note("n6", m3, 3, "C", 5)
     if "tie_barline" in f:
@@ -366,6 +367,7 @@ def catalogue(tier="quick"):
         ("two_staves_direction_inside_the_last_note_pickup", ["pickup", "two_staves", "direction_inside_last_note", "tie_barline"]),
         ("tuplet_that_starts_in_voice_3_and_ends_in_voice_1", ["tuplet_cross_voice"]),
         ("polyphony_ties", ["polyphony", "tie_barline", "tie_cross_voice", "two_staves"]),
+        ("underfilled_measures_in_two_parts_with_a_pickup", ["pickup", "underfilled_measures", "group"]),
     ]
     out += combos
     if tier == "thorough":
